@@ -63,7 +63,7 @@ def main(argv):
             agg["nontrivial"] += 1
             digests.add(res.state_digest[:16])
         if want_per_seed:
-            agg["per_seed"][str(seed)] = res.counters.get("_outcome_key", "")
+            agg["per_seed"][str(seed)] = res.outcome_key
         if len(agg["samples"]) < 2 and res.nontrivial and len(res.ops) <= 14:
             agg["samples"].append({"seed": seed, "ops": res.ops})
         if res.violation is not None:
